@@ -275,13 +275,37 @@ func Files() []*descriptorpb.FileDescriptorProto {
 	exLeaf.scalar("z", 1, typeOf("string"))
 	ex.m.NestedType = append(ex.m.NestedType, exLeaf.m)
 	ex.message("own_leaf", 5, exLeaf.full)
+	// Mutually recursive types whose only maps live in a third type: Node ->
+	// Link -> Node, Node -> Leaf{maps}. Whoever decides per type whether a map
+	// is reachable has to get cycles right, from whichever type it starts and
+	// whichever field comes first (NodeB declares the leaf before the cycle).
+	cleaf := newMsg("CycleLeaf", pkgDot)
+	cleaf.mapField("attrs", 1, "string", typeOf("int32"), "")
+	cleaf.mapField("more", 2, "int64", typeOf("string"), "")
+	cnode := newMsg("CycleNode", pkgDot)
+	clink := newMsg("CycleLink", pkgDot)
+	cnode.message("next", 1, clink.full)
+	cnode.message("leaf", 2, cleaf.full)
+	cnode.message("links", 3, clink.full).Label = descriptorpb.FieldDescriptorProto_LABEL_REPEATED.Enum()
+	clink.message("node", 1, cnode.full)
+	clink.scalar("tag", 2, typeOf("string"))
+	cnodeB := newMsg("CycleNodeB", pkgDot)
+	clinkB := newMsg("CycleLinkB", pkgDot)
+	chop := newMsg("CycleHop", pkgDot)
+	cnodeB.message("leaf", 1, cleaf.full)
+	cnodeB.message("next", 2, clinkB.full)
+	clinkB.message("hop", 1, chop.full) // a cycle of three
+	chop.message("node", 1, cnodeB.full)
+	chop.scalar("n", 2, typeOf("uint32"))
+	ex.message("cycle", 6, cnode.full)
+	ex.message("cycle_b", 7, clinkB.full)
 	extraFD := &descriptorpb.FileDescriptorProto{
 		Name:        proto.String(ExtraFile),
 		Package:     proto.String(ProtoPkg),
 		Syntax:      proto.String("proto3"),
 		Dependency:  []string{MainFile},
 		Options:     &descriptorpb.FileOptions{GoPackage: proto.String(GoPkg)},
-		MessageType: []*descriptorpb.DescriptorProto{ex.m},
+		MessageType: []*descriptorpb.DescriptorProto{ex.m, cleaf.m, cnode.m, clink.m, cnodeB.m, clinkB.m, chop.m},
 	}
 	return []*descriptorpb.FileDescriptorProto{mainFD, extraFD}
 }
